@@ -37,6 +37,7 @@ func (lr *LexerReader) Read() rune {
 	}
 
 	if lr.pos >= len(lr.runes) {
+		verifEOF()
 		lr.char = 0
 		return 0
 	}
